@@ -7,7 +7,7 @@
   * `spec`, session              svx_open (SFM_WRITE), write calls, header updates, svx_close (SfModel.SmallSession)
   * `parse`                      sf_open (SFM_READ): guess_file_type, the chunk loop of svx_read_header, svx_open,
                                  pcm_init (it recomputes the frame count from the file length), validate_sfinfo / _psf
-  * `rateQ`                      the 16-bit rate field
+  * `rateField`, `rateQ`         the 16-bit rate field (saturating; `rateFieldOld` / `rateQOld`: the wrap before the repair)
 
   Core Lean only; names live in `Sf.Svx`.
 -/
@@ -35,8 +35,15 @@ def Cfg.bytewidth (c : Cfg) : Nat := c.codec
 def Cfg.bw (c : Cfg) : Nat := c.bytewidth * c.ch
 def Cfg.fmtWord (c : Cfg) : Nat := 0x060000 + c.codec
 
-/-- the rate field is `BHW2 (psf->sf.samplerate)`: the low 16 bits; 0 cannot be re-opened -/
-def rateQ (sr : Nat) : Option Nat := if sr % 65536 = 0 then none else some (sr % 65536)
+/-- the rate field is `BHW2 (SF_MIN (psf->sf.samplerate, 0xFFFF))`: rates above 65535 are stored as 65535 -/
+def rateField (sr : Nat) : Nat := min sr 0xFFFF
+
+/-- what a reader reports for a file written at `sr` (`none`: the file cannot be re-opened) -/
+def rateQ (sr : Nat) : Option Nat := if rateField sr = 0 then none else some (rateField sr)
+
+/-- the rule before the repair of KF-RATE16-WRAP: `BHW2 (psf->sf.samplerate)` kept the low 16 bits; 0 cannot be re-opened -/
+def rateFieldOld (sr : Nat) : Nat := sr % 65536
+def rateQOld (sr : Nat) : Option Nat := if rateFieldOld sr = 0 then none else some (rateFieldOld sr)
 
 /-- conversion 's' of psf_binheader_writef: length word (string + NUL, evened), the string, NUL, pad -/
 def strField (s : List Byte) : List Byte :=
@@ -51,7 +58,7 @@ def hdrLen (c : Cfg) : Nat := 98 + (c.name.length + 1 + (c.name.length + 1) % 2)
 def hdr (c : Cfg) (frames : Nat) (filelength datalength : Int) : List Byte :=
   mk4 "FORM" ++ be32 (if filelength < 8 then 0 else filelength - 8) ++
   (if c.bytewidth = 1 then mk4 "8SVX" else mk4 "16SV") ++
-  mk4 "VHDR" ++ be32 20 ++ be32 frames ++ be32 0 ++ be32 0 ++ be16 c.sr ++ [1] ++ [0] ++
+  mk4 "VHDR" ++ be32 20 ++ be32 frames ++ be32 0 ++ be32 0 ++ be16 (rateField c.sr) ++ [1] ++ [0] ++
     be32 (if c.bytewidth = 1 then 0xFF else 0xFFFF) ++
   (if c.ch = 2 then mk4 "CHAN" ++ be32 4 ++ be32 6 else []) ++
   mk4 "NAME" ++ strField c.name ++ mk4 "ANNO" ++ strField annotation ++
